@@ -148,6 +148,10 @@ func (r *MeteredReader) Read(p []byte) (int, error) {
 	return n, nil
 }
 
+// Len reports the unread octets, as *bytes.Reader, *bytes.Buffer and *strings.Reader do (a decoder that
+// looks for it finds what it finds on those)
+func (r *MeteredReader) Len() int { return len(r.B) - r.Off }
+
 func (r *MeteredReader) ReadRune() (rune, int, error) {
 	r.tick()
 	if r.Off >= len(r.B) {
